@@ -33,6 +33,7 @@
 #include <stddef.h>
 #include <sys/stat.h>
 #include <fcntl.h>
+#include <sys/wait.h>
 
 #define MAXKEYS 128
 #define MAXSTREAMS 64
@@ -145,14 +146,10 @@ static void emit_file(int fi)
 
 static int file_ok(int f) { return dbp && f >= 0 && f < dbp_reader_nb_files(dbp) && dbp_file_error(dbp_reader_get_file(dbp, f)) == 0; }
 
-int main(int argc, char **argv)
+static int alarm_s = 60;
+
+static void exec_line(const char *line)
 {
-    char *line = NULL; size_t cap = 0;
-    if( argc > 1 ) base = argv[1];
-    signal(SIGSEGV, on_fatal); signal(SIGBUS, on_fatal); signal(SIGALRM, on_fatal); signal(SIGABRT, on_fatal);
-    while( getline(&line, &cap, stdin) > 0 ) {
-        line[strcspn(line, "\n")] = 0;
-        if( line[0] == 0 ) continue;
         char *w[8]; int nw = 0;
         char *copy = strdup(line);
         for(char *p = strtok(copy, " "); p && nw < 8; p = strtok(NULL, " ")) w[nw++] = p;
@@ -263,7 +260,7 @@ int main(int argc, char **argv)
         }
         else if( nw == 1 && 0 == strcmp(w[0], "close") ) {
             if( !opened ) { printf("rejected\n"); goto next; }
-            alarm(60);
+            alarm(alarm_s);
             int rc = parsec_profiling_dbp_dump();
             int rc2 = parsec_profiling_fini();
             alarm(0);
@@ -275,7 +272,7 @@ int main(int argc, char **argv)
         }
         else if( nw == 1 && 0 == strcmp(w[0], "read") ) {
             if( opened || dbp || nfiles == 0 ) { printf("rejected\n"); goto next; }
-            alarm(60);
+            alarm(alarm_s);
             dbp = dbp_reader_open_files(nfiles, files);
             alarm(0);
             printf("nfiles=%d errs=", dbp_reader_nb_files(dbp));
@@ -333,7 +330,7 @@ int main(int argc, char **argv)
             if( !file_ok(f) || t < 0 || t >= dbp_file_nb_threads(dbp_reader_get_file(dbp, f)) ) { printf("rejected\n"); goto next; }
             dbp_file_t *fl = dbp_reader_get_file(dbp, f);
             dbp_thread_t *th = dbp_file_get_thread(fl, t);
-            alarm(60);
+            alarm(alarm_s);
             dbp_event_iterator_t *it = dbp_iterator_new_from_thread(th);
             const dbp_event_t *e = dbp_iterator_current(it);
             long n = 0; int mono = 1; uint64_t last = 0;
@@ -368,7 +365,65 @@ int main(int argc, char **argv)
       next:
         free(copy);
         fflush(stdout);
+}
+
+/* `open` accepted?  (same rule as in exec_line; used by the parent to decide whether a child process is started) */
+static int open_ok(const char *line)
+{
+    int rank, pages; char hr[4096];
+    if( sscanf(line, "open %d %d %4095s", &rank, &pages, hr) != 3 ) return 0;
+    char *h;
+    if( opened || nfiles >= MAXFILES || pages < 1 || pages > 16 || rank < 0 || unhex_str(hr, &h) < 0 ) return 0;
+    free(h);
+    return 1;
+}
+
+/* One profiled process = one child process (the library keeps file offsets in static variables that are not
+ * reset by parsec_profiling_fini: see finding C42-F3; argv[2] = "samepid" keeps everything in this process). */
+static void run_child(char **lines, int n)
+{
+    fflush(stdout);
+    pid_t pid = fork();
+    if( pid == 0 ) {
+        for(int i = 0; i < n; i++) exec_line(lines[i]);
+        fflush(stdout);
+        _exit(0);
     }
+    int st = 0;
+    waitpid(pid, &st, 0);
+    if( !WIFEXITED(st) ) printf("crash\n");
+    int rank = atoi(lines[0] + 5);
+    if( asprintf(&files[nfiles], "%s-%d.prof", base, rank) < 0 ) abort();
+    nfiles++;
+}
+
+int main(int argc, char **argv)
+{
+    char *line = NULL; size_t cap = 0;
+    char **pend = NULL; int npend = 0, cpend = 0, collecting = 0, samepid = 0;
+    if( argc > 1 ) base = argv[1];
+    if( argc > 2 && 0 == strcmp(argv[2], "samepid") ) samepid = 1;
+    if( getenv("PVC42_ALARM") ) alarm_s = atoi(getenv("PVC42_ALARM"));
+    signal(SIGSEGV, on_fatal); signal(SIGBUS, on_fatal); signal(SIGALRM, on_fatal); signal(SIGABRT, on_fatal);
+    while( getline(&line, &cap, stdin) > 0 ) {
+        line[strcspn(line, "\n")] = 0;
+        if( line[0] == 0 ) continue;
+        if( !samepid ) {
+            if( !collecting && 0 == strncmp(line, "open ", 5) && open_ok(line) ) { collecting = 1; npend = 0; }
+            if( collecting ) {
+                if( npend == cpend ) { cpend = cpend ? 2 * cpend : 1024; pend = realloc(pend, cpend * sizeof(char*)); }
+                pend[npend++] = strdup(line);
+                if( 0 == strcmp(line, "close") ) {
+                    run_child(pend, npend);
+                    for(int i = 0; i < npend; i++) free(pend[i]);
+                    npend = 0; collecting = 0;
+                }
+                continue;
+            }
+        }
+        exec_line(line);
+    }
+    if( collecting ) run_child(pend, npend);
     reset_case();
     return 0;
 }
